@@ -619,6 +619,27 @@ def compare(chk, vectors, ref, other, stats):
     return clean
 
 
+def malformed(vectors, rng):
+    """'behaves identically' includes what a codec answers to malformed input: count / length leaves at boundary values, enum / bool / string
+    leaves out of range and a few truncations of one small vector per (flavour, direction, object, kind of policy)"""
+    from ref import faults
+    out, seen = [], set()
+    for v in vectors:
+        if v.get('class') != 'canonical' or v.get('kind') not in ('policy1', 'policy3') or len(v['hex']) > 2 * 2048:
+            continue
+        cases = [(sfx, f) for sfx, f in faults.count_faults(v)] + [(sfx, f) for sfx, f in faults.domain_faults(v, rng) if sfx.startswith(('ones@', 'ff@'))]
+        tr = list(faults.truncations(v))
+        cases += tr[:1] + tr[len(tr) // 2:len(tr) // 2 + 1] + tr[-1:]
+        for sfx, f in cases:
+            fid = f"{v['id']}!{sfx}"
+            if fid in seen:
+                continue
+            seen.add(fid)
+            out.append({'id': fid, 'family': v['family'], 'version': v['version'], 'dir': v['dir'], 'object': v['object'], 'hex': f.hex(),
+                        'class': 'malformed', 'kind': sfx.split('@')[0]})
+    return out
+
+
 def run_behaviour(chk, vectors, dtasks, only_ids=None):
     from monitors import vecs as V
     stats = {'configs': [], 'lines': 0}
@@ -768,7 +789,9 @@ def run(tier, replay=None):
         bstats = {'configs': [], 'lines': 0, 'skipped': 'tree changed during the run'}
     else:
         judge_driver_builds(chk, dtasks)
-        bstats = run_behaviour(chk, vectors, dtasks)
+        nmal = malformed(vectors, random.Random(common.seed() * 31 + 19))
+        bstats = run_behaviour(chk, vectors + nmal, dtasks)
+        bstats['malformed_inputs'] = len(nmal)
         if tree_fingerprint() != fp0:
             chk.inconclusive.append('the sources of the libraries changed during the run')
 
